@@ -99,11 +99,12 @@ func ApplyInclude(ctx context.Context, workingDir string, environment types.Mapp
 						relworkingdir = r.ProjectDirectory
 
 					}
-					for _, f := range included {
-						if f == path {
-							included = append(included, path)
-							return fmt.Errorf("include cycle detected:\n%s\n include %s", included[0], strings.Join(included[1:], "\n include "))
-						}
+				}
+				// override files are loaded as well: a cycle can go through any of them
+				for _, f := range included {
+					if f == path {
+						included = append(included, path)
+						return fmt.Errorf("include cycle detected:\n%s\n include %s", included[0], strings.Join(included[1:], "\n include "))
 					}
 				}
 			}
